@@ -154,13 +154,14 @@ def r1_search_parameters(run, w):
   mod = w.repo.module("records")
   bf = w.fn("records.RecordSet._bisect_find")
   bi = w.fn("records.RecordSet._bisect_index")
+  N_BF, N_BI, N_AT = bf.fi.name, bi.fi.name, H.aname(w, "records.RecordSet._at")
   bff, bif = H.Flow(bf), H.Flow(bi)
   # --- helpers forward in role
   ps = bf.fi.params()
   if len(ps) != 5:
     raise AnalysisError("_bisect_find: parameter list changed")
   p_func, p_shift, p_row, p_vals = ps[1:]
-  inner = [c for (n, c, nm) in bf.calls() if nm == "self._bisect_index"]
+  inner = [c for (n, c, nm) in bf.calls() if nm == "self." + N_BI]
   ic = _single(inner, "_bisect_find: call of _bisect_index")
   b = H.bind_args(ic, bi.fi)
   ips = bi.fi.params()
@@ -169,7 +170,7 @@ def r1_search_parameters(run, w):
   ok = [text(b[x]) if x in b else None for x in ips[1:4]] == [p_func, p_row, p_vals]
   rs = _returned(bf, bff)
   ok_ret = len(rs) == 1 and isinstance(rs[0][1], ast.Call) and \
-      _xname(bf, rs[0][1].func) == "self._at" and len(rs[0][1].args) == 1
+      _xname(bf, rs[0][1].func) == "self." + N_AT and len(rs[0][1].args) == 1
   if ok_ret:
     e = rs[0][1].args[0]
     ok_ret = isinstance(e, ast.BinOp) and isinstance(e.op, ast.Add) and \
@@ -220,7 +221,7 @@ def r1_search_parameters(run, w):
       raise AnalysisError("FindOps.%s: unrecognised shape" % name)
     case, c = _single_call_return(fn, flow, "FindOps.%s" % name)
     site = m.qualname
-    if text(c.func) == RS + "._bisect_find":
+    if text(c.func) == RS + "." + N_BF:
       pass
     elif isinstance(c.func, ast.Attribute) and text(c.func.value) == RS and \
         len(c.args) == 1 and isinstance(c.args[0], ast.Starred) and text(c.args[0].value) == va:
@@ -230,7 +231,7 @@ def r1_search_parameters(run, w):
         raise AnalysisError("FindOps.%s delegates to unknown %s" % (name, c.func.attr))
       tfn = w.fn_of(target)
       tva = tfn.node.args.vararg.arg if tfn.node.args.vararg else None
-      cc = [x for (n, x, nm) in tfn.calls() if nm == "self._bisect_find"]
+      cc = [x for (n, x, nm) in tfn.calls() if nm == "self." + N_BF]
       c = _inl(H.Flow(tfn), _single(cc, "%s: _bisect_find call" % target.qualname))
       va = tva
     else:
@@ -255,7 +256,7 @@ def r1_search_parameters(run, w):
     fn = w.fn_of(m)
     flow = H.Flow(fn)
     case, c = _single_call_return(fn, flow, "FindOps.%s" % name)
-    if text(c.func) != RS + "._bisect_find":
+    if text(c.func) != RS + "." + N_BF:
       raise AnalysisError("FindOps.%s: unrecognised shape" % name)
     f, sh, rowe, valse = triple_of(c)
     own = rowe is not None and text(rowe) == "%s._to_local_row_id(%s)" % (RS, m.params()[1])
@@ -273,7 +274,7 @@ def r1_search_parameters(run, w):
   fn = w.fn_of(m)
   flow = H.Flow(fn)
   p_order = m.params()[2]
-  ics = [c for (n, c, nm) in fn.calls() if nm == RS + "._bisect_index"]
+  ics = [c for (n, c, nm) in fn.calls() if nm == RS + "." + N_BI]
   c = _inl(flow, _single(ics, "FindOps.rank: _bisect_index call"))
   bb = H.bind_args(c, bi.fi)
   f = _bisect_name(mod, bb.get(ips[1]))
@@ -419,7 +420,8 @@ def r3_find_eq(run, w):
   flow = H.Flow(fn)
   cfg = fn.cfg
   va = fn.node.args.vararg.arg if fn.node.args.vararg else None
-  found = [(n, c) for (n, c, nm) in fn.calls() if nm == "self._bisect_find"]
+  found = [(n, c) for (n, c, nm) in fn.calls()
+           if nm == "self." + H.aname(w, "records.RecordSet._bisect_find")]
   (fdn, fdc) = _single(found, "_find_eq: _bisect_find call")
   K = "self._get_sort_key()"
   ftext = text(_inl(flow, fdc))
@@ -512,11 +514,11 @@ def r4_prevnext(run, w):
     ok = isinstance(c.func, ast.Attribute) and c.func.attr == name.lower() and \
         isinstance(c.func.value, ast.Attribute) and c.func.value.attr in ("_find", "find") and \
         isinstance(c.func.value.value, ast.Call) and \
-        dotted(c.func.value.value.func) == "_sorted_lookup"
+        dotted(c.func.value.value.func) == sl.fi.name
     if not (isinstance(c.func, ast.Attribute) and c.func.attr in fo.methods and
             isinstance(c.func.value, ast.Attribute) and c.func.value.attr in ("_find", "find") and
             isinstance(c.func.value.value, ast.Call) and
-            dotted(c.func.value.value.func) == "_sorted_lookup"):
+            dotted(c.func.value.value.func) == sl.fi.name):
       raise AnalysisError("%s: cannot read the search %s" % (fn.qualname, short(c)))
     target = fo.methods.get(name.lower())
     if ok and target is not None:
